@@ -127,19 +127,55 @@ def split_statements(body):
     if cur.strip(): stmts.append(cur.strip())
     return stmts
 
-RE_VALIDATE = re.compile(r'^(self\s*\.\s*)?validate_path_component\s*\(\s*(\w+)\s*\)\s*\?\s*;$')
-RE_SLASH = re.compile(r'^if\s+(\w+)\s*\.\s*to_bytes_with_nul\s*\(\s*\)\s*\.\s*contains\s*\(\s*&\s*SLASH_ASCII\s*\)\s*'
-                      r'\{\s*return\s+Err\s*\(\s*(einval\s*\(\s*\)|(io\s*::\s*)?Error\s*::\s*from_raw_os_error\s*\(\s*libc\s*::\s*EINVAL\s*\))\s*\)\s*;\s*\}$')
+# ---- tolerant statement classifier (structure, not text): a top-level statement of a method body is
+#   * a VALIDATION of parameter x when it calls [self.]validate_path_component(x) (possibly through one private helper of the
+#     same file whose body does that to its parameter) and leaves the method on failure (`?`, `return Err`, or an if/else /
+#     match whose failing branch yields the error), and calls nothing else on self / libc;
+#   * a SLASH check of x when it is an `if` (either polarity, early return or if/else around the rest of the body) whose
+#     condition only tests x.to_bytes[_with_nul]().contains(&SLASH_ASCII | &b'/');
+#   * INERT when it is a `let` that merely renames a parameter / takes its bytes (aliases are followed);
+#   * anything else is the first possible effect.
+CALL_VALIDATE = re.compile(r'(self\s*\.\s*)?\bvalidate_path_component\s*\(\s*&?\s*(\w+)\s*\)')
+SLASH_TEST = re.compile(r'!?\s*(\w+)\s*\.\s*to_bytes(_with_nul)?\s*\(\s*\)\s*\.\s*(contains\s*\(\s*&\s*(SLASH_ASCII|b\'/\'|47(u8)?)\s*\)|iter\s*\(\s*\)\s*\.\s*any\s*\([^)]*(SLASH_ASCII|b\'/\')[^)]*\))')
+ALIAS_LET = re.compile(r'^let\s+(mut\s+)?(\w+)\s*(:\s*[^=]+)?=\s*&?\s*(\w+)\s*(\.\s*to_bytes(_with_nul)?\s*\(\s*\))?\s*;$')
+OTHER_CALLS = re.compile(r'\bself\s*\.\s*(?!validate_path_component\b)\w+\s*\(|\blibc\s*::|\bunsafe\b|\bfs\s*\.\s*\w+\s*\(|Self\s*::')
 
-def classify(stmt):
-    s = norm(stmt)
-    m = RE_VALIDATE.match(s)
-    if m: return ('validate_self' if m.group(1) else 'validate', m.group(2))
-    m = RE_SLASH.match(s)
-    if m: return ('slash', m.group(1))
+def leaves_on_failure(s):
+    return '?' in s or re.search(r'\breturn\b', s) is not None or re.search(r'\bErr\s*\(', s) is not None
+
+def classify(stmt, helpers=None, aliases=None):
+    s = norm(stmt); aliases = aliases or {}
+    m = ALIAS_LET.match(s)
+    if m and (m.group(4) in aliases or m.group(4) in (helpers or {}).get('__params__', ())):
+        return ('alias', (m.group(2), aliases.get(m.group(4), m.group(4))))
+    m = CALL_VALIDATE.search(s)
+    if m and leaves_on_failure(s) and not OTHER_CALLS.search(s):
+        return ('validate_self' if m.group(1) else 'validate', aliases.get(m.group(2), m.group(2)))
+    # one level of helper extraction: self.helper(x)? where the private helper validates its parameter
+    hm = re.match(r'^(let\s+\w+\s*=\s*)?self\s*\.\s*(\w+)\s*\(\s*&?\s*(\w+)\s*\)\s*\?\s*;$', s)
+    if hm and helpers and hm.group(2) in helpers and helpers[hm.group(2)] is not None:
+        return (helpers[hm.group(2)], aliases.get(hm.group(3), hm.group(3)))
+    if s.startswith('if '):
+        cond = s[3:s.index('{')] if '{' in s else ''
+        m = SLASH_TEST.fullmatch(cond.strip())
+        if m and re.search(r'EINVAL|einval', s): return ('slash', aliases.get(m.group(1), m.group(1)))
     return ('other', None)
 
-def parse_impl(src, header_re, what):
+def helper_table(src):
+    """private helpers `fn h(&self, p: &CStr) -> ...` of the file whose body validates p: name -> kind"""
+    out = {}
+    for m in re.finditer(r'\bfn\s+(\w+)\s*\(\s*&\s*self\s*,\s*(\w+)\s*:\s*&\s*CStr\s*\)', src):
+        name, par = m.group(1), m.group(2)
+        if name == 'validate_path_component': continue
+        b = src.find('{', m.end())
+        if b < 0: continue
+        body = src[b + 1:match_close(src, b) - 1]
+        kinds = [classify(st) for st in split_statements(body)]
+        ks = [k for k in kinds if k[0] in ('validate', 'validate_self', 'slash') and k[1] == par]
+        out[name] = ks[0][0] if ks and all(k[0] != 'other' or i == len(kinds) - 1 for i, k in enumerate(kinds)) else None
+    return out
+
+def parse_impl(src, header_re, what, helpers=None):
     ms = list(re.finditer(header_re, src))
     if len(ms) != 1: raise TranslateError('%s: expected exactly one impl block, found %d' % (what, len(ms)))
     b = ms[0].end() - 1
@@ -173,11 +209,16 @@ def parse_impl(src, header_re, what):
                     raise TranslateError('%s::%s: cannot parse parameter %r' % (what, name, p))
                 if re.sub(r'\s+', '', pm.group(3)) == '&CStr': names.append(pm.group(2))
             stmts = split_statements(fb)
-            cls = [classify(s) for s in stmts]
+            hp = dict(helpers or {}); hp['__params__'] = tuple(names)
+            cls = []; aliases = {}
+            for st in stmts:
+                c = classify(st, hp, aliases)
+                if c[0] == 'alias': aliases[c[1][0]] = c[1][1]
+                cls.append(c)
             first_other = next((k for k, c in enumerate(cls) if c[0] == 'other'), len(cls))
             vals = []
             for k, (kind, arg) in enumerate(cls):
-                if kind == 'other': continue
+                if kind in ('other', 'alias'): continue
                 if arg not in names:
                     raise TranslateError('%s::%s: validation of %r which is not a &CStr parameter' % (what, name, arg))
                 vals.append({'arg': arg, 'kind': kind, 'pos': k})
@@ -219,100 +260,31 @@ def const_int(src, name):
     try: return int(re.sub(r'_?(u8|u32|i32)$', '', v), 0)
     except ValueError: raise TranslateError('cannot evaluate constant %s = %r' % (name, v))
 
-# expected (normalised) bodies; the Coq models in Model/Names.v and Model/Passthrough.v transcribe exactly these
-EXPECT = {
- 'is_dot_or_dotdot': 'let bytes = name.to_bytes_with_nul(); bytes.starts_with(CURRENT_DIR_CSTR) || bytes.starts_with(PARENT_DIR_CSTR)',
- 'is_safe_path_component': 'let bytes = name.to_bytes_with_nul(); if bytes.contains(&SLASH_ASCII) { return false; } !is_dot_or_dotdot(name)',
- 'validate_path_component': 'match is_safe_path_component(name) { true => Ok(()), false => Err(io::Error::from_raw_os_error(libc::EINVAL)), }',
- 'pt_validate_path_component': 'if !self.cfg.do_import { return Ok(()); } validate_path_component(name)',
- 'is_safe_inode': 'matches!(mode & libc::S_IFMT, libc::S_IFREG | libc::S_IFDIR)',
- 'open_file_restricted': 'let flags = libc::O_NOFOLLOW | libc::O_CLOEXEC | flags; openat(dir, pathname, flags, mode)',
- 'create_file_excl': 'match openat(dir, pathname, flags | libc::O_CREAT | libc::O_EXCL, mode) { Ok(file) => Ok(Some(file)), Err(err) => { if err.kind() == io::ErrorKind::AlreadyExists { if (flags & libc::O_EXCL) != 0 { return Err(err); } return Ok(None); } Err(err) } }',
- 'reopen_fd_through_proc': 'let name = CString::new(format!("{}", fd.as_raw_fd()).as_str())?; openat( proc_self_fd, &name, flags & !libc::O_NOFOLLOW & !libc::O_CREAT, 0, )',
-}
-
 def translate(repo):
+    """constants of the name predicates + the validator tables of the two FileSystem impls.  No body-shape facts: what the
+    helper bodies do is tied to the models behaviourally (deterministic blocks of the C05/C06 correspondence, see notes)."""
     t = {}
     vmod = read(repo, 'src/api/vfs/mod.rs')
     t['CURRENT_DIR_CSTR'] = const_bytes(vmod, 'CURRENT_DIR_CSTR')
     t['PARENT_DIR_CSTR'] = const_bytes(vmod, 'PARENT_DIR_CSTR')
     t['SLASH_ASCII'] = const_int(vmod, 'SLASH_ASCII')
-    shapes = {}
-    def shape(key, src, fn, what):
-        p, r, b = find_fn(src, fn, what)
-        got = norm(b)
-        shapes[key] = (got == EXPECT[key])
-        if got != EXPECT[key]:
-            t.setdefault('shape_diffs', []).append({'fn': key, 'expected': EXPECT[key], 'found': got})
-    for fn in ('is_dot_or_dotdot', 'is_safe_path_component', 'validate_path_component'):
-        shape(fn, vmod, fn, 'src/api/vfs/mod.rs')
-    pmod = read(repo, 'src/passthrough/mod.rs')
-    shape('pt_validate_path_component', pmod, 'validate_path_component', 'src/passthrough/mod.rs')
-    shape('open_file_restricted', pmod, 'open_file_restricted', 'src/passthrough/mod.rs')
-    shape('create_file_excl', pmod, 'create_file_excl', 'src/passthrough/mod.rs')
-    putil = read(repo, 'src/passthrough/util.rs')
-    shape('is_safe_inode', putil, 'is_safe_inode', 'src/passthrough/util.rs')
-    shape('reopen_fd_through_proc', putil, 'reopen_fd_through_proc', 'src/passthrough/util.rs')
-    # do_lookup: the ".." rewrite and that the path fd comes from open_file_and_handle -> open_file_restricted(O_PATH)
-    p, r, b = find_fn(pmod, 'do_lookup', 'src/passthrough/mod.rs')
-    nb = norm(b)
-    t['lookup_dotdot_rewrite'] = bool(re.match(
-        r'let name = if parent == fuse::ROOT_ID && name\.to_bytes_with_nul\(\)\.starts_with\(PARENT_DIR_CSTR\) \{ '
-        r'CStr::from_bytes_with_nul\(CURRENT_DIR_CSTR\)\.unwrap\(\) \} else \{ name \};', nb))
-    t['lookup_uses_open_file_and_handle'] = 'Self::open_file_and_handle(self, &dir_file, name)?' in nb and \
-        len(re.findall(r'open_file_and_handle|openat\s*\(|open_file\s*\(|libc::open', nb)) == 1
-    p, r, b = find_fn(pmod, 'open_file_and_handle', 'src/passthrough/mod.rs')
-    nb = norm(b)
-    t['path_fd_flags_o_path'] = nb.startswith('let path_file = self.open_file_restricted(dir, name, libc::O_PATH, 0)?;')
     psync = read(repo, 'src/passthrough/sync_io.rs')
-    p, r, b = find_fn(psync, 'open_inode', 'src/passthrough/sync_io.rs')
-    nb = norm(b)
-    t['open_inode_gate'] = bool(re.match(r'let data = self\.inode_map\.get\(inode\)\?; if !is_safe_inode\(data\.mode\) \{ Err\(ebadf\(\)\) \} else \{', nb))
-    # C05: the parent's descriptor is obtained (data.get_file() / dir.get_file()) before set_creds() in the four
-    # creating methods (with inode_file_handles it is open_by_handle_at, which the caller's credentials may not do)
-    order = {}
-    for fn in ('mkdir', 'mknod', 'symlink', 'create'):
-        ms = [m for m in re.finditer(r'\bfn\s+%s\s*\(' % fn, psync)]
-        if len(ms) != 1: raise TranslateError('src/passthrough/sync_io.rs: expected one fn %s' % fn)
-        b0 = psync.find('{', match_close(psync, ms[0].end() - 1, '(', ')'))
-        body = norm(psync[b0:match_close(psync, b0)])
-        g = body.find('.get_file()'); c = body.find('set_creds(')
-        if g < 0 or c < 0: raise TranslateError('fn %s: get_file()/set_creds() not found' % fn)
-        order[fn] = g < c
-    t['descriptor_before_set_creds'] = order
-    # C05: create() reopens an existing file with the request's flags, unmodified (open_inode applies the
-    # documented writeback adjustment itself), and creates with get_writeback_open_flags(args.flags)
-    ms = [m for m in re.finditer(r'\bfn\s+create\s*\(', psync)]
-    b0 = psync.find('{', match_close(psync, ms[0].end() - 1, '(', ')'))
-    cbody = norm(psync[b0:match_close(psync, b0)])
-    t['create_flag_use'] = (len(re.findall(r'self\.open_inode\(entry\.inode, args\.flags as i32\)', cbody)) == 1
-                            and len(re.findall(r'open_inode\(', cbody)) == 1
-                            and 'let flags = self.get_writeback_open_flags(args.flags as i32); Self::create_file_excl(&dir_file, name, flags, args.mode & !(args.umask & 0o777))?' in cbody)
-    t['shapes'] = shapes
+    pmod = read(repo, 'src/passthrough/mod.rs')
     vsync = read(repo, 'src/api/vfs/sync_io.rs')
-    t['vfs'] = parse_impl(vsync, r'\bimpl\s+FileSystem\s+for\s+Vfs\s*\{', 'impl FileSystem for Vfs')
-    t['pt'] = parse_impl(psync, r'\bimpl\s*<[^>]*>\s*FileSystem\s+for\s+PassthroughFs\s*<\s*S\s*>\s*\{', 'impl FileSystem for PassthroughFs')
+    t['vfs'] = parse_impl(vsync, r'\bimpl\s+FileSystem\s+for\s+Vfs\s*\{', 'impl FileSystem for Vfs', helper_table(vsync + vmod))
+    t['pt'] = parse_impl(psync, r'\bimpl\s*<[^>]*>\s*FileSystem\s+for\s+PassthroughFs\s*<\s*S\s*>\s*\{', 'impl FileSystem for PassthroughFs',
+                         helper_table(psync + pmod))
     return t
 
 def coq_str(s): return '"%s"' % s
 def coq_bool(b): return 'true' if b else 'false'
 
 def emit_coq(t):
-    o = ['(* GENERATED by translator/validators.py from src/api/vfs/{mod,sync_io}.rs and src/passthrough/{mod,sync_io,util}.rs -- do not edit *)',
+    o = ['(* GENERATED by translator/validators.py from src/api/vfs/{mod,sync_io}.rs and src/passthrough/{mod,sync_io}.rs -- do not edit *)',
          'From Coq Require Import List String NArith Bool.', 'Import ListNotations.', 'Local Open Scope string_scope.', '']
     o.append('Definition current_dir_cstr : list N := [%s]%%N.' % '; '.join(map(str, t['CURRENT_DIR_CSTR'])))
     o.append('Definition parent_dir_cstr : list N := [%s]%%N.' % '; '.join(map(str, t['PARENT_DIR_CSTR'])))
     o.append('Definition slash_ascii : N := %d%%N.' % t['SLASH_ASCII'])
-    o.append('')
-    o.append('(* does the body of each helper have the shape the hand model transcribes? *)')
-    for k in sorted(EXPECT):
-        o.append('Definition shape_%s : bool := %s.' % (k, coq_bool(t['shapes'].get(k, False))))
-    for k in ('lookup_dotdot_rewrite', 'lookup_uses_open_file_and_handle', 'path_fd_flags_o_path', 'open_inode_gate'):
-        o.append('Definition shape_%s : bool := %s.' % (k, coq_bool(t[k])))
-    o.append('(* is the parent descriptor obtained before set_creds() in mkdir/mknod/symlink/create? *)')
-    o.append('Definition shape_descriptor_before_set_creds : bool := %s.' % coq_bool(all(t['descriptor_before_set_creds'].values())))
-    o.append('(* does create() pass the request flags unmodified to open_inode / the writeback-adjusted ones to create_file_excl? *)')
-    o.append('Definition shape_create_flag_use : bool := %s.' % coq_bool(t['create_flag_use']))
     o.append('')
     o.append('Inductive vkind := VFull | VFullIfStandalone | VSlash.')
     o.append('(* one validation: argument name, kind, statement position *)')
